@@ -128,6 +128,30 @@ func convErrors(l gqlerror.List) []ref.ErrExp {
 	return out
 }
 
+// PayloadOf converts one response (as handed out by the response function, or as decoded from a
+// transport's frame) into the form the oracles read.
+func PayloadOf(resp *graphql.Response) *Payload {
+	p := &Payload{Label: resp.Label, HasNext: resp.HasNext, Errors: convErrors(resp.Errors), Extensions: len(resp.Extensions)}
+	for _, e := range resp.Path {
+		switch v := e.(type) {
+		case ast.PathName:
+			p.Path = append(p.Path, string(v))
+		case ast.PathIndex:
+			p.Path = append(p.Path, int(v))
+		}
+	}
+	p.Raw = append(json.RawMessage{}, resp.Data...)
+	if len(resp.Data) > 0 {
+		v, err := sjson.Parse(resp.Data)
+		if err == nil {
+			p.Data, p.ParseOK = v, true
+		}
+	} else {
+		p.ParseOK = true
+	}
+	return p
+}
+
 // Run executes one operation; maxPayloads bounds the number of response-function calls.
 func (s *Server) Run(ctx context.Context, run *univ.Run, query, opName string, vars map[string]any, timeout time.Duration) *Real {
 	out := &Real{}
@@ -160,7 +184,6 @@ func (s *Server) Run(ctx context.Context, run *univ.Run, query, opName string, v
 			if resp == nil {
 				return
 			}
-			p := &Payload{Label: resp.Label, HasNext: resp.HasNext, Errors: convErrors(resp.Errors), Extensions: len(resp.Extensions)}
 			if s.Presenter {
 				for _, e := range resp.Errors {
 					if m, _ := e.Extensions[presentedMark].(bool); !m {
@@ -168,24 +191,7 @@ func (s *Server) Run(ctx context.Context, run *univ.Run, query, opName string, v
 					}
 				}
 			}
-			for _, e := range resp.Path {
-				switch v := e.(type) {
-				case ast.PathName:
-					p.Path = append(p.Path, string(v))
-				case ast.PathIndex:
-					p.Path = append(p.Path, int(v))
-				}
-			}
-			p.Raw = append(json.RawMessage{}, resp.Data...)
-			if len(resp.Data) > 0 {
-				v, err := sjson.Parse(resp.Data)
-				if err == nil {
-					p.Data, p.ParseOK = v, true
-				}
-			} else {
-				p.ParseOK = true
-			}
-			out.Payloads = append(out.Payloads, p)
+			out.Payloads = append(out.Payloads, PayloadOf(resp))
 		}
 	}()
 	select {
